@@ -23,7 +23,8 @@ RULE = ("for every stream class (QCow2, QCow2 snapshot view, VMDK sparse / flat 
         "VDI, HDS, Parallels StorageStream) over a small image whose size is not a buffer multiple: every sequence of "
         "operations of depth <= d over the alphabet {seek SET/CUR/END, read, readinto, peek, readoffset, tell, read_sectors} "
         "on one instance, every sequence of depth <= d-1 over the alphabet addressed to two instances over different images, "
-        "and the suffix trees after cache sweeps; each step compared with the model. non-trivial = sequence with >= 2 "
+        "the suffix trees after cache sweeps, and depth <= 2 over every kind of binary file object a caller may supply {file, "
+        "unbuffered file, gzip / bz2 / lzma reader, BufferedReader with a 16-byte buffer}; each step compared with the model. non-trivial = sequence with >= 2 "
         "data-returning operations (a later result could depend on an earlier one)")
 ASSUMPTIONS = [
     "io semantics of dissect.util AlignedStream: seek clamps CUR/END at 0, negative SET raises ValueError, reads past the end "
@@ -41,6 +42,9 @@ EXPECT_OUTCOMES = ["ok"]
 CLASSES = ["qcow2", "qcow2-snapshot", "qcow2-backing", "vmdk-sparse", "vmdk-flat", "vmdk-multi", "vhdx", "vhdx-diff",
            "vhd-fixed", "vhd-dynamic", "vdi", "vdi-child", "hds", "hds-child", "hdd-storage"]
 SWEEPS = ["qcow2", "vmdk-sparse", "vhd-dynamic", "vhdx"]
+# classes whose images are handed over as file objects (the others are opened by path by the library itself)
+HANDLE_CLASSES = ["qcow2", "qcow2-snapshot", "qcow2-backing", "vmdk-sparse", "vmdk-flat", "vhd-fixed", "vhd-dynamic", "vdi",
+                  "vdi-child", "hds", "hds-child"]
 
 
 def shards(tier):
@@ -60,6 +64,11 @@ def shards(tier):
             if not q:
                 for i in range(32):
                     out.append({"buf": buf, "kind": "single", "cls": cls, "depth": 4, "slice": [i, 32], "lean": True})
+    for buf in ([8192] if q else [512, 8192]):
+        for cls in CLASSES:
+            if cls in HANDLE_CLASSES:
+                for hk in HANDLE_KINDS:
+                    out.append({"buf": buf, "kind": "handles", "cls": cls, "handle": hk, "depth": 2})
     for buf in ([8192] if q else [512, 8192]):
         for cls in SWEEPS:
             for order in ("asc", "desc", "stride"):
@@ -340,10 +349,47 @@ def _noop():
     pass
 
 
+HANDLE_KINDS = ["file", "unbuffered", "gzip", "bz2", "lzma", "buffered-16"]
+_handle = {"kind": None, "dir": None, "opened": [], "n": 0}
+
+
 def _bio(raw):
+    """The file object handed to the library: a write-trapping BytesIO, or (handle shards) one of the other kinds of binary
+    file object a caller may legitimately supply -- for some of them fileno() names a different byte stream than read()."""
     from mc.vfile import TrapBytesIO
 
-    return TrapBytesIO(raw)
+    kind = _handle["kind"]
+    if kind is None:
+        return TrapBytesIO(raw)
+    import bz2
+    import gzip
+    import io
+    import lzma
+
+    _handle["n"] += 1
+    path = os.path.join(_handle["dir"], "img%d.bin" % _handle["n"])
+    if kind in ("file", "unbuffered"):
+        with open(path, "wb") as f:
+            f.write(raw)
+        fh = open(path, "rb") if kind == "file" else open(path, "rb", buffering=0)
+    elif kind == "gzip":
+        with gzip.open(path, "wb", compresslevel=1) as f:
+            f.write(raw)
+        fh = gzip.open(path, "rb")
+    elif kind == "bz2":
+        with bz2.open(path, "wb", compresslevel=1) as f:
+            f.write(raw)
+        fh = bz2.open(path, "rb")
+    elif kind == "lzma":
+        with lzma.open(path, "wb", preset=0) as f:
+            f.write(raw)
+        fh = lzma.open(path, "rb")
+    elif kind == "buffered-16":
+        fh = io.BufferedReader(io.BytesIO(raw), buffer_size=16)
+    else:
+        raise ValueError(kind)
+    _handle["opened"].append(fh)
+    return fh
 
 
 def _perm_slots(states, variant):
@@ -498,6 +544,12 @@ def run_shard(shard, ctx):
             if len({o[0] for o in seq}) < 2:
                 continue  # single-instance sequences are covered by the single tree
             run_case({"kind": "pair", "cls": cls, "ops": [list(o) for o in seq]}, ctx)
+    elif kind == "handles":
+        im = _image(cls, 0, buf)
+        ops = alphabet(im["disk"].size, buf, im["unit"], im["sectors"], True)
+        ops = [o for o in ops if o[0] != "disturb"]
+        for seq in itertools.chain(itertools.product(ops, repeat=1), itertools.product(ops, repeat=2)):
+            run_case({"kind": "single", "cls": cls, "ops": [list(o) for o in seq], "handle": shard["handle"]}, ctx)
     elif kind == "sweep":
         run_case({"kind": "sweep", "cls": cls, "order": shard["order"], "depth": shard["depth"]}, ctx)
 
@@ -514,6 +566,22 @@ def run_case(case, ctx):
     if sum(1 for o in ops if (o[1] if kind == "pair" else o[0]) in DATA_OPS) >= 2:
         ctx.nontrivial += 1
     ctx.sample(case)
+    if case.get("handle"):
+        with scratch_dir() as d:
+            _handle.update(kind=case["handle"], dir=d, opened=[], n=0)
+            try:
+                return _run_ops(case, ctx, buf, kind, cls, ops)
+            finally:
+                for fh in _handle["opened"]:
+                    try:
+                        fh.close()
+                    except Exception:
+                        pass
+                _handle.update(kind=None, dir=None, opened=[])
+    return _run_ops(case, ctx, buf, kind, cls, ops)
+
+
+def _run_ops(case, ctx, buf, kind, cls, ops):
     with ctx.watch(case):
         if kind == "single":
             im = _image(cls, 0, buf)
@@ -537,7 +605,7 @@ def run_case(case, ctx):
                 idx = 0
                 if kind == "pair":
                     idx, o = o[0], o[1:]
-                if not _step(ctx, case, streams, readers, models, o, idx, f"{cls}.{kind}"):
+                if not _step(ctx, case, streams, readers, models, o, idx, f"{cls}.{kind}" + (".handle-" + case["handle"] if case.get("handle") else "")):
                     return
             ctx.outcome("ok")
         finally:
